@@ -378,6 +378,11 @@ def compare_dump(m, d, resolve_names=True, ext=None):
         bad.append("rowcount %d != model %d" % (d["nrows"], m.nrows))
     if bad:
         return bad
+    for k, fn in (("rr_unset", "QSget_ranged_rows"), ("rows_unset", "QSget_rows"), ("cols_unset", "QSget_columns")):
+        if d.get(k):
+            bad.append("outputs left unset by %s on the empty problem (returned 0; %d pointers untouched)" % (fn, d[k]))
+    if bad:
+        return bad
     # an accessor asked for a zero-length array may refuse: there is nothing to observe then
     zero_ok = {"obj_rc": m.ncols, "bounds_rc": m.ncols, "colnames_rc": m.ncols, "rhs_rc": m.nrows, "senses_rc": m.nrows, "rownames_rc": m.nrows}
     for k in ("objsense_rc", "obj_rc", "rhs_rc", "senses_rc", "bounds_rc", "colnames_rc", "rownames_rc"):
